@@ -256,6 +256,12 @@ def random_stream(ctx, rng, name='xcube-random-deformed-malformed') -> Stream:
             errs += [[[0], []], [[], []]]
             xcube_case(s, {'size': list(size), 'direction': list(d), 'p': 0.125, 'deformation_axis': axis},
                        errs, f'deformed-{axis}:{shape(size)}', with_struct=True)
+    # a walk of get_matched_pairs that never ends: zero matching weights (pure X noise at rate 1/2) make
+    # PyMatching return an answer with a cycle; the implementation runs into the watchdog, the model into
+    # its exact fuel (`XErr.hang`), at the same point of the program (one case, ~20 s: thorough tier only)
+    if thorough:
+        xcube_case(s, {'size': [3, 3, 3], 'direction': [1.0, 0.0, 0.0], 'p': 0.5},
+                   [([11, 13, 19, 28, 29, 30, 32, 34, 44, 48, 61, 68, 72, 77, 79], [])], 'nonterminating-walk')
     # malformed: wrong length, non-binary entries (truthiness of `if syndrome[i_stab]`)
     for size in [(2, 2, 2), (3, 2, 2)]:
         code = XCubeCode(*size)
